@@ -57,13 +57,11 @@ func runAlloc(fields []string) string {
 	var out []string
 	var oracles []string
 	measured := 0
-	for _, p := range probes {
-		req := newReq(p[0], p[1], p[2])
+	measure := func(req *http.Request, label string, p [3]string) bool {
 		served = 0
 		f.ServeHTTP(w, req)
 		if served == 0 {
-			out = append(out, "unserved")
-			continue
+			return false
 		}
 		// warm-up: let the pooled contexts reach their steady-state capacities
 		for i := 0; i < 8; i++ {
@@ -71,10 +69,29 @@ func runAlloc(fields []string) string {
 		}
 		n := testing.AllocsPerRun(40, func() { f.ServeHTTP(w, req) })
 		measured++
-		out = append(out, fmt.Sprintf("allocs=%d", int(n)))
 		if n > 0 {
-			oracles = append(oracles, fmt.Sprintf("%s host=%s path=%s: %d allocations per request (caps params=%d tsr=%d skipped=%d; tree maxParams=%d depth=%d)",
-				p[0], hx(p[1]), hx(p[2]), int(n), capP, capT, capS, mp, depth))
+			oracles = append(oracles, fmt.Sprintf("%s host=%s path=%s%s: %d allocations per request (caps params=%d tsr=%d skipped=%d; tree maxParams=%d depth=%d)",
+				p[0], hx(req.Host), hx(p[2]), label, int(n), capP, capT, capS, mp, depth))
+		}
+		out = append(out, fmt.Sprintf("allocs%s=%d", label, int(n)))
+		return true
+	}
+	for k, p := range probes {
+		if !measure(newReq(p[0], p[1], p[2]), "", p) {
+			out = append(out, "unserved")
+			continue
+		}
+		// the same request with a percent-escape in its last segment: the router then matches URL.RawPath
+		if n := len(p[2]); n > 1 && (p[2][n-1] >= 'a' && p[2][n-1] <= 'z' || p[2][n-1] >= '0' && p[2][n-1] <= '9') {
+			req := newReq(p[0], p[1], p[2])
+			req.URL.RawPath = p[2][:n-1] + fmt.Sprintf("%%%02X", p[2][n-1])
+			measure(req, "+rawpath", p)
+		}
+		// path-only matches under unusual Host shapes (IPv6 literals with and without brackets / port / zone)
+		if k%2 == 0 {
+			for _, h := range []string{"[::1]", "::1", "[::1]:8080", "[fe80::1%25en0]:80", "localhost:", "example.com.:443"} {
+				measure(newReq(p[0], h, p[2]), "+host", p)
+			}
 		}
 	}
 	res := "I=" + strings.Join(out, "|") + "\tT=maxparams-" + strconv.Itoa(int(mp)) + "\tN=" + strconv.Itoa(min(1, measured))
